@@ -384,6 +384,109 @@ def crowd_session(col, binpath, vmon, rng, tag, scratch):
         sess.close()
 
 
+def gpsd_session(col, binpath, vmon, rng, tag, scratch):
+    """--gpsd: the receiver position comes from gpsd (a stand-in on its own loopback address) and
+    moves once; table, title and map must follow the reported fixes, not the command-line position."""
+    idx = int(tag.split("#")[1])
+    p1 = rng.choice([(50.4, 8.9), (-33.2, 151.0), (10.05, -60.3)])
+    # the second fix shares one coordinate with the first (a receiver moving due east or due north)
+    p2 = (p1[0], p1[1] + 0.6) if idx % 2 == 0 else (p1[0] + 0.3, p1[1])
+    p0 = (round(p1[0] - 0.3, 3), round(p1[1] - 0.7, 3))
+    ip = "127.%d.%d.%d" % (rng.randrange(2, 250), rng.randrange(250), rng.randrange(1, 250))
+    g = procs.FakeGpsd(lat=p1[0], lon=p1[1], ip=ip, modes=("periodic",), drift=0.0)
+    if not g.ok:
+        raise Inconclusive("no loopback address for the gpsd stand-in")
+    g.start()
+    lines1 = traffic(rng, 6, p1[0], p1[1], max_km=120) + [sentinel_line(0)]
+    d = 30.0
+    north = enc.destination(p2[0], p2[1], 0, d)
+    east = enc.destination(p2[0], p2[1], 90, d)
+    lines2 = []
+    for addr, (la, lo) in ((0x71A001, north), (0x71A002, east)):
+        lines2.append(enc.line(enc.long_frame(17, 5, addr, enc.me_airpos(11, 30000, la, lo, False))))
+        lines2.append(enc.line(enc.long_frame(17, 5, addr, enc.me_airpos(11, 30000, la, lo, True))))
+    lines2 += lines1[: len(lines1) // 2]
+    lines2.append(sentinel_line(1))
+    sim1 = feedsim(vmon, lines1, p1[0], p1[1], scratch)
+    sim2 = feedsim(vmon, lines1 + [("#R %r %r\n" % p2).encode()] + lines2, p1[0], p1[1], scratch)
+    plan = [("wait_for", "b1"), ("send", b"".join(lines1)), ("mark", "feed_done"), ("wait_for", "b2"), ("send", b"".join(lines2)), ("mark", "feed2_done"), ("sleep", 90)]
+    opts = ["--filter-time", "100000", "--gpsd", "--gpsd-ip", ip, "--disable-heading", "--disable-icao", "--disable-track"]
+    sess = session.RadarSession(binpath, plan, lat=p0[0], lon=p0[1], opts=opts, rows=60, cols=200, scratch=scratch)
+    inp = {"command_line_position": list(p0), "first_fix": list(p1), "second_fix": list(p2), "options": opts, "tag": tag}
+
+    def title_pos():
+        t = next((l for l in sess.p.screen.text()[:3] if "rsadsb/radar" in l), "")
+        m = re.search(r"\((-?\d+\.\d+),(-?\d+\.\d+)\)", t)
+        return (float(m.group(1)), float(m.group(2))) if m else None
+
+    def wait_title(want, cap):
+        end = time.monotonic() + cap
+        while time.monotonic() < end:
+            sess.p.pump(0.2)
+            t = title_pos()
+            if t is not None and abs(t[0] - want[0]) < 0.0011 and abs(t[1] - want[1]) < 0.0011:
+                return True
+            if not sess.p.alive():
+                return False
+        return False
+    try:
+        sess.wait_connected()
+        col.count("gpsd_sessions")
+        col.cls("gpsd|" + ("east" if idx % 2 == 0 else "north"))
+        if not wait_title(p1, 15):
+            if g.connections == 0:
+                raise Inconclusive("radar did not connect to the gpsd stand-in")
+            col.add("C18", "C18|gpsd_fix_not_adopted|first", f"gpsd reports {p1} for 15 s; the title still shows {title_pos()} (command line: {p0})", inp)
+            return
+        sess.srv.release("b1")
+        rows = wait_rows(sess, sim1["len"], sentinel=SENTINELS[0])
+        if rows is None:
+            raise Inconclusive("Airplanes table not on screen")
+        col.count("rows_compared", len(sim1["rows"]))
+        ok = rows_equal(col, rows, sim1, "", inp, "gpsd_first_fix")
+        g.lat, g.lon = p2
+        if not wait_title(p2, 15):
+            col.add("C18", "C18|gpsd_fix_not_adopted|second", f"gpsd reports {p2} for 15 s (before: {p1}); the title still shows {title_pos()}", inp)
+            return
+        sess.srv.release("b2")
+        rows = wait_rows(sess, sim2["len"], sentinel=SENTINELS[1])
+        if rows is None:
+            raise Inconclusive("Airplanes table not on screen")
+        col.count("rows_compared", len(sim2["rows"]))
+        if ok:
+            rows_equal(col, rows, sim2, "", inp, "gpsd_second_fix")
+        # the map is centred on the fix: the aircraft due north / east of it sit on the axes
+        sess.key("F1")
+        sess.settle(0.6)
+        cells = sess.p.screen.cells
+        txt = sess.p.screen.text()
+        top = next((i for i, l in enumerate(txt) if "┌Map" in l), None)
+        if top is None:
+            if sess.widget_missing("F1", lambda: any("┌Map" in l for l in sess.p.screen.text())):
+                col.add("C18", "C18|map_not_drawn", "the Map tab is selected, the frame of the UI is on screen, but no map is drawn", inp)
+                return
+            raise Inconclusive("Map tab not on screen")
+        bottom = next((i for i in range(top + 1, len(txt)) if "└" in txt[i]), len(txt) - 1)
+        left, right = txt[top].index("┌"), txt[top].rindex("┐")
+        row_scores = {r: sum(1 for c in range(left + 1, right) if BRAILLE(cells[r][c][0])) for r in range(top + 1, bottom)}
+        col_scores = {c: sum(1 for r in range(top + 1, bottom) if BRAILLE(cells[r][c][0])) for c in range(left + 1, right)}
+        cr, cc = max(row_scores, key=row_scores.get), max(col_scores, key=col_scores.get)
+        blue = [(r - cr, c - cc) for r in range(top + 1, bottom) for c in range(left + 1, right) if cells[r][c][1] == 4 and BRAILLE(cells[r][c][0])]
+        on_north = [b for b in blue if abs(b[1]) <= 1 and b[0] < -1]
+        on_east = [b for b in blue if abs(b[0]) <= 1 and b[1] > 3]
+        col.count("gpsd_map_checks")
+        if not on_north or not on_east:
+            col.add("C18", "C18|map_not_centred_on_gpsd_fix", f"aircraft {d} km due north and due east of the current fix {p2} are not on the axes of the map: blue dots at (row, column) offsets {sorted(blue)[:12]}", inp)
+    except Inconclusive:
+        if sess.p.alive():
+            raise
+        col.add("C17", f"C17|terminated_before_quit|{sess.panic_location()}", "radar died during a C18 session", inp)
+        col.add("C18", f"C18|radar_died_while_showing_data|{sess.panic_location()}", "radar terminated during a session: nothing is shown any more", inp)
+    finally:
+        g.stop = True
+        sess.close()
+
+
 def stats_expiry_session(col, binpath, rng, tag, scratch):
     """Aircraft expire and come back: Total counts every (re-)add, Most the largest simultaneous count.
     Event driven (title counts), so a slow machine only makes it slower."""
@@ -744,14 +847,16 @@ def main(a, lcol, col, run_all, scratch, START):
     # long sessions first (they take the longest): 4-digit counts in the quick tier, 5-digit in thorough
     for i, n_msgs in enumerate([1003 + 7 * (a.seed % 50), 10_007 + 11 * (a.seed % 50)] if thorough else [1003 + 7 * (a.seed % 50)]):
         jobs.insert(0, (f"long#{i}", lambda rng, i=i, n_msgs=n_msgs: long_count_session(lcol, a.bin, a.vmon, rng, f"long#{i}", scratch, n_msgs)))
+    for i in range(24 if thorough else 2):
+        jobs.append((f"gpsd#{i}", lambda rng, i=i: gpsd_session(lcol, a.bin, a.vmon, rng, f"gpsd#{i}", scratch)))
     for i in range(12 if thorough else 2):
         jobs.insert(0, (f"crowd#{i}", lambda rng, i=i: crowd_session(lcol, a.bin, a.vmon, rng, f"crowd#{i}", scratch)))
     run_all(jobs)
     ev = col.counters.get("rows_compared", 0) + col.counters.get("stats_compared", 0) + col.counters.get("view_control_sequences", 0) + col.counters.get("map_sessions", 0) * 8 + col.counters.get("expiry_sessions", 0)
-    distinct = col.counters.get("data_sessions", 0) + col.counters.get("long_count_sessions", 0) + col.counters.get("crowd_sessions", 0) + col.counters.get("map_sessions", 0) + col.counters.get("expiry_sessions", 0)
+    distinct = col.counters.get("data_sessions", 0) + col.counters.get("long_count_sessions", 0) + col.counters.get("crowd_sessions", 0) + col.counters.get("gpsd_sessions", 0) + col.counters.get("map_sessions", 0) + col.counters.get("expiry_sessions", 0)
     col.sample({"data_session": "20 aircraft in four quadrants with identification/velocity/position (some one parity only); all 10 columns of every Airplanes row == library run on the same lines; tab title; Stats totals; 1-40 view-control events then rows unchanged"})
     col.sample({"map_session": "8 aircraft due N/E/S/W at d and 2d km; blue braille cells relative to the axis crossing: direction, 2:1 proportion, E/W and N/S symmetry, receiver at the canvas centre, the same picture scaled after three zoom-outs and after five zoom-ins, reset restores the cells"})
     return vlib.finish(col, "C18", a.tier, a.seed, "exploration",
-        "radar on a 200x60 pseudo-terminal fed by a scripted server: (a) data sessions: the reconstructed Airplanes table (address, callsign, lat, lon, heading, altitude, rate, speed, distance, message count; blanks without a position) == rows computed by the repository's library on the same recorded lines (vmon feedsim), tab title count, Stats 'Total'/'Most'; then 1-40 zoom/pan/reset/drag/scroll events and the table again; (b) expiry sessions (--filter-time 2): aircraft expire and return, Total = number of (re-)adds, Most = largest simultaneous count; (c) long sessions: one aircraft heard 1003+ (quick) / 10007+ (thorough) times, Msgs column exact; (c') crowded sessions: 70-130 aircraft on a 60-row terminal, rows collected while the selection moves down through the list; (d) map sessions: aircraft due N/E/S/W at d and 2d: direction, proportion, symmetry, centre, reset; distinct_nontrivial = sessions (each a distinct seeded feed)",
+        "radar on a 200x60 pseudo-terminal fed by a scripted server: (a) data sessions: the reconstructed Airplanes table (address, callsign, lat, lon, heading, altitude, rate, speed, distance, message count; blanks without a position) == rows computed by the repository's library on the same recorded lines (vmon feedsim), tab title count, Stats 'Total'/'Most'; then 1-40 zoom/pan/reset/drag/scroll events and the table again; (b) expiry sessions (--filter-time 2): aircraft expire and return, Total = number of (re-)adds, Most = largest simultaneous count; (c) long sessions: one aircraft heard 1003+ (quick) / 10007+ (thorough) times, Msgs column exact; (c') crowded sessions: 70-130 aircraft on a 60-row terminal, rows collected while the selection moves down through the list; (c'') gpsd sessions: the receiver position comes from a stand-in gpsd and moves once (due east / due north); title, table and map must follow the fixes; (d) map sessions: aircraft due N/E/S/W at d and 2d: direction, proportion, symmetry, centre, reset; distinct_nontrivial = sessions (each a distinct seeded feed)",
         ["screen reconstruction by a minimal VT model; aircraft dots are the blue (38;5;4) braille cells with --disable-heading", "one-cell tolerance for direction/symmetry, two cells for the 2:1 proportion"],
         a.verif, START, ev, distinct, min_evaluations=20)
